@@ -270,6 +270,10 @@ class Check:
         args = ["go", "build", "-tags", tags, "-o", out]
         if race:
             args.append("-race")
+        if os.environ.get("VERIF_COVER"):
+            # gap finding (tools/anchor_coverage.sh): which statements of the tree under test do the drivers of this check reach?
+            # the binaries write coverage counters to $GOCOVERDIR when they exit
+            args += ["-cover", "-coverpkg=go.opentelemetry.io/collector/..."]
         ov = overlay or os.environ.get("VERIF_OVERLAY")
         if ov:
             args += ["-overlay", ov]
